@@ -72,3 +72,40 @@ package memory
 //@   monitor returned
 //@     ghost found *storage.TupleRecord = nil
 //@     after call (*storage.TupleRecord).AsTuple args r : found = r
+
+// ------------------------------------------------------------------ C31 / C16: assertions are kept verbatim per (store, model)
+// the key of a (store, model) pair; "|" occurs in neither a store id nor a model id (both are ULIDs), so distinct pairs
+// have distinct keys (lemma below)
+//@ spec assertionsKey(store string, model string) string = store + "|" + model
+
+//@ func (*MemoryBackend).WriteAssertions(s, ctx, store, modelID, assertions) (err)
+//@   property C31 C16
+//@   option nosafety
+//@   modifies MapD:String MapV:String:Slice
+//@   requires s != nil && s.assertions != nil
+//@   ensures @ok err == nil
+//@   ensures @stored inDom(s.assertions, assertionsKey(store, modelID)) && s.assertions[assertionsKey(store, modelID)] == assertions
+//@   ensures @othersUntouched forall k string :: k != assertionsKey(store, modelID) ==> (inDom(s.assertions, k) <==> old(inDom(s.assertions, k))) && s.assertions[k] == old(s.assertions[k])
+//@   ensures @sameMap s.assertions == old(s.assertions)
+
+//@ func (*MemoryBackend).ReadAssertions(s, ctx, store, modelID) (res, err)
+//@   property C31 C16
+//@   option nosafety
+//@   modifies nothing
+//@   requires s != nil
+//@   ensures @ok err == nil
+//@   ensures @verbatim old(inDom(s.assertions, assertionsKey(store, modelID))) ==> res == old(s.assertions[assertionsKey(store, modelID)])
+//@   ensures @neverWritten !old(inDom(s.assertions, assertionsKey(store, modelID))) ==> len(res) == 0
+//@   ensures @readOnly forall k string :: (inDom(s.assertions, k) <==> old(inDom(s.assertions, k))) && s.assertions[k] == old(s.assertions[k])
+
+// after a write, reading the same pair returns exactly the list written; a different pair is unaffected
+//@ lemma assertions_roundtrip(s *MemoryBackend, ctx context.Context, store string, model string, as []*openfgav1.Assertion, store2 string, model2 string)
+//@   property C31 C16
+//@   requires s != nil && s.assertions != nil
+//@   requires !containsByte(store, '|') && !containsByte(store2, '|') && !containsByte(model, '|') && !containsByte(model2, '|')
+//@   let before, e0 = (*MemoryBackend).ReadAssertions(s, ctx, store2, model2)
+//@   let e1 = (*MemoryBackend).WriteAssertions(s, ctx, store, model, as)
+//@   let got, e2 = (*MemoryBackend).ReadAssertions(s, ctx, store, model)
+//@   let other, e3 = (*MemoryBackend).ReadAssertions(s, ctx, store2, model2)
+//@   ensures @same got == as
+//@   ensures @isolated (store2 != store || model2 != model) ==> (other == before || (len(other) == 0 && len(before) == 0))
